@@ -583,6 +583,45 @@ pub fn run(session: &Session) -> i32 {
         }
     }
     {
+        // operands the folding pass re-types: the sum of `if true { [] } else { [V] }` is a string or
+        // a float for the checker, and - the pruned branch gone - the int 0 of an array of nothing
+        // once folded; every template and operator then meets a value outside its checked type
+        use crate::genr::matrix::{BINARY, INFIX, UNARY};
+        for v in ["\"x\"", "1.5", "1", "[1]", "true"] {
+            for red in ["$+", "$*", "$&&", "$||", "$&", "$|"] {
+                for (k, decl) in [
+                    format!("a := if true {{ [] }} else {{ [{v}] }}"),
+                    format!("a := if false {{ [{v}] }} else {{ [] }}"),
+                    format!("a := match 1 {{ 1 => [], => [{v}], }}"),
+                ]
+                .iter()
+                .enumerate()
+                {
+                    for t in UNARY {
+                        let body = t.replace('X', "x");
+                        cases.push(json!({"src": "retyped-after-folding", "text": format!("{decl}; x := a~ {red}; {body}")}));
+                        if k == 0 {
+                            cases.push(json!({"src": "retyped-after-folding", "text": format!("{decl}; {}", t.replace('X', &format!("(a~ {red})")))}));
+                        }
+                    }
+                    if k != 0 {
+                        continue;
+                    }
+                    for y in ["1", "2.5", "\"s\"", "[1]", "mut 1"] {
+                        for op in INFIX {
+                            cases.push(json!({"src": "retyped-after-folding", "text": format!("{decl}; x := a~ {red}; y := {y}; x {op} y")}));
+                            cases.push(json!({"src": "retyped-after-folding", "text": format!("{decl}; x := a~ {red}; y := {y}; y {op} x")}));
+                        }
+                        for t in BINARY {
+                            let body = t.replace('X', "x").replace('Y', "y");
+                            cases.push(json!({"src": "retyped-after-folding", "text": format!("{decl}; x := a~ {red}; y := {y}; {body}")}));
+                        }
+                    }
+                }
+            }
+        }
+    }
+    {
         // the matrix once more with operands that are constants of a union static type
         // (`[v1, v2][k]` has the union of the element types and folds to one element): the checker
         // judges the union, the folding pass then applies the operator to the element
